@@ -44,8 +44,13 @@ type GCSWorld struct {
 	ViaBatch bool
 }
 
-// ServeOverHTTP switches the world to a real net/http server on a loopback socket.
+// ServeOverHTTP switches the world to a real net/http server on a loopback socket. That world also
+// runs the store WITHOUT the harness's pass-through wrapper (a wrapper hides whatever optional
+// interfaces the emulator might discover on the store by type assertion).
 func (w *GCSWorld) ServeOverHTTP() {
+	w.emu = gcsemu.NewGcsEmu(gcsemu.Options{Store: w.ys.in})
+	w.mux = http.NewServeMux()
+	w.emu.Register(w.mux)
 	w.remote = httptest.NewServer(w.mux)
 	w.r.Defer(w.remote.Close)
 }
